@@ -111,12 +111,6 @@ theorem C08_dynamic_lookup (t : Stmt) (hf : FragS t = true) (hu : UniqueAnnos (a
    through `C08_compositional_state`, what is not proved is the lookup of their annotations by node id);
    comprehensions and annotated parameters. -/
 
-/-- Declaring a name both `global` and `nonlocal` in one block is a SyntaxError; the hypothesis excludes it. -/
-def declsDisjoint (t : Stmt) : Bool :=
-  match blockOf t with
-  | some b => b.globals.all fun x => !b.nonlocals.contains x
-  | none => true
-
 /-- **Classification of the root function.**  For every function definition `t` of the fragment on which the
     analysis and Python agree statement by statement (`SpecOkS`), whose nested functions' parameters are all
     names the function binds anyway (`harmfulLeaks t = []`): the parameters, bound locals, declared globals and
